@@ -47,12 +47,9 @@ def statement_end(m_text, start):
     return n
 
 
-def build_block(src, selector, rx, opts, sections, emitter):
+def statement_range(src, selector, body_lo, body_hi, rx):
+    """(start, end) offsets of the rx[1] consecutive statements starting at the first match of rx[0]."""
     import extract as X
-    start, ob, end, kind, hdr = src.locate_fn(selector)
-    if ob < 0:
-        raise X.ExtractError(f"{selector}: no body")
-    body_lo, body_hi = ob + 1, end - 1
     m = re.search(rx[0], src.masked[body_lo:body_hi])
     if not m:
         # allow the start regex to match unmasked text too (string contents are blanked in masked text)
@@ -64,16 +61,37 @@ def build_block(src, selector, rx, opts, sections, emitter):
     k = bstart
     while src.masked[k] in " \t":
         k += 1
-    nst = int(rx[1])
     pos = k
-    for _ in range(nst):
+    if re.fullmatch(r"\d+", rx[1]):
+        nst = int(rx[1])
+        for _ in range(nst):
+            while pos < body_hi and src.masked[pos] in " \t\n":
+                pos += 1
+            e = statement_end(src.masked, pos)
+            if e <= pos:
+                raise X.ExtractError(f"{selector}: block has fewer than {nst} statements (lost anchor)")
+            pos = e
+        return bstart, pos
+    # end regex: the block runs through the first statement (at this nesting depth) that matches it
+    for _ in range(400):
         while pos < body_hi and src.masked[pos] in " \t\n":
             pos += 1
         e = statement_end(src.masked, pos)
-        if e <= pos:
-            raise X.ExtractError(f"{selector}: block has fewer than {nst} statements (lost anchor)")
+        if e <= pos or pos >= body_hi:
+            break
+        if re.search(rx[1], src.masked[pos:e]) or re.search(rx[1], src.text[pos:e]):
+            return bstart, e
         pos = e
-    bend = pos
+    raise X.ExtractError(f"{selector}: block end /{rx[1]}/ not found after /{rx[0]}/ (lost anchor)")
+
+
+def build_block(src, selector, rx, opts, sections, emitter):
+    import extract as X
+    start, ob, end, kind, hdr = src.locate_fn(selector)
+    if ob < 0:
+        raise X.ExtractError(f"{selector}: no body")
+    body_lo, body_hi = ob + 1, end - 1
+    bstart, bend = statement_range(src, selector, body_lo, body_hi, rx)
     raw = src.text[bstart:bend]
     first_line = line_of(src.text, bstart)
     sha = hashlib.sha256(raw.encode()).hexdigest()
@@ -116,6 +134,8 @@ def build_block(src, selector, rx, opts, sections, emitter):
             if n < 1 or n > len(lps):
                 raise X.ExtractError(f"{selector} block: loop {n} not found ({len(lps)} loops) (lost anchor)")
             add_insert(lps[n - 1][1], "\n" + val.rstrip("\n") + "\n")
+        elif key.strip() == "hint start":
+            add_insert(0, val.rstrip("\n") + "\n")
         elif key.startswith("hint "):
             hm = re.match(r"hint (before|after) /(.*)/\s*(\d+)?$", key)
             where, hrx, kk = hm.group(1), hm.group(2), int(hm.group(3) or 1)
@@ -154,5 +174,79 @@ def build_block(src, selector, rx, opts, sections, emitter):
         "repo_lines": [first_line, first_line + raw.count("\n")],
         "gen_lines": [gen_start + 1, len(emitter.lines)],
         "sha256": sha, "rules": applied + ["block-extraction"], "has_requires": bool(spec and re.search(r"\brequires\b", spec)),
-        "contract": bool(spec), "has_body": True, "block": True,
+        "contract": bool(spec), "has_body": True, "block": True, "repo_span": [bstart, bend],
+    })
+
+
+def build_compose(src, selector, opts, sections, emitter):
+    """//@compose <file> <fn> blocks=a,b,..   with sections sig, spec, glue, tail and any number of
+    `skip /regex/ N` sections (content: why those statements are not under contract here).
+
+    Emits a function (signature, contract, the hand-written glue that calls the block wrappers in order, tail) and
+    CHECKS mechanically that the named blocks and the skipped statement ranges tile the body of the real function:
+    in order, without overlap, with nothing but whitespace and comments between them, and with the function's
+    tail expression equal to the //@tail section.  The parameter list of //@sig must be the real one (modulo `mut`)."""
+    import extract as X
+    start, ob, end, kind, hdr = src.locate_fn(selector)
+    if ob < 0:
+        raise X.ExtractError(f"{selector}: no body")
+    body_lo, body_hi = ob + 1, end - 1
+    ranges = []
+    for bn in opts.get("blocks", "").split(","):
+        its = [it for it in emitter.items if it.get("block") and it["name"] == bn and it["file"] == src.rel]
+        if not its:
+            raise X.ExtractError(f"compose {selector}: block {bn} not extracted before the compose directive")
+        ranges.append((its[-1]["repo_span"][0], its[-1]["repo_span"][1], "block " + bn))
+    skipped = []
+    for key, val in sections.items():
+        if key.startswith("skip "):
+            rm_ = re.match(r"skip /(.*?)/\s*(\d+)$", key) or re.match(r"skip /(.*?)/\s+/(.*)/$", key)
+            if not rm_:
+                raise X.ExtractError(f"compose {selector}: malformed skip section")
+            a, b = statement_range(src, selector, body_lo, body_hi, (rm_.group(1), rm_.group(2)))
+            ranges.append((a, b, "skip"))
+            skipped.append(f"{src.rel}:{line_of(src.text, a)}-{line_of(src.text, b)}: " + " ".join(val.split()))
+    ranges.sort()
+    pos = body_lo
+    for a, b, what in ranges:
+        if a < pos:
+            raise X.ExtractError(f"compose {selector}: {what} overlaps the previous range")
+        gap = src.masked[pos:a].strip()
+        if gap:
+            raise X.ExtractError(f"compose {selector}: statements outside every block before {what}: {gap[:80]!r} (construct outside the composed subset)")
+        pos = b
+    norm = lambda t: "".join(t.split())
+    rest = norm(src.masked[pos:body_hi])
+    tail = sections.get("tail", "")
+    if rest != norm(mask(tail)):
+        raise X.ExtractError(f"compose {selector}: tail of the function {rest[:80]!r} differs from //@tail")
+    sig = sections.get("sig")
+    if not sig:
+        raise X.ExtractError("compose without //@sig")
+    # parameter list: the real one modulo `mut` and visibility
+    real_params = norm(re.sub(r"\bmut\s+(?=\w+\s*:)", "", src.masked[src.masked.index("(", start):ob]).split("->")[0])
+    sig_params = norm(mask(sig)[mask(sig).index("("):].split("->")[0])
+    real_params = real_params.replace(",)", ")")
+    sig_params = sig_params.replace(",)", ")")
+    if real_params != sig_params:
+        raise X.ExtractError(f"compose {selector}: parameter list {sig_params!r} differs from the real one {real_params!r}")
+    raw = src.text[start:end]
+    out = [(sig.rstrip("\n") + "\n", None)]
+    spec = sections.get("spec")
+    if spec:
+        out.append((spec.rstrip("\n") + "\n", None))
+    out.append(("{\n", None))
+    out.append((sections.get("glue", "").rstrip("\n") + "\n", None))
+    out.append((tail.rstrip("\n") + "\n", None))
+    out.append(("}", None))
+    gen_start = len(emitter.lines)
+    emitter.emit_mapped(out)
+    name = opts.get("name", selector.split("::")[-1])
+    emitter.items.append({
+        "kind": "fn", "selector": f"{selector}#compose", "name": name, "file": src.rel,
+        "repo_lines": [line_of(src.text, start), line_of(src.text, end)],
+        "gen_lines": [gen_start + 1, len(emitter.lines)],
+        "sha256": hashlib.sha256(raw.encode()).hexdigest(), "rules": ["compose(" + opts.get("blocks", "") + ")"] + ["not-under-contract: " + s_ for s_ in skipped],
+        "has_requires": bool(spec and re.search(r"\brequires\b", spec)),
+        "contract": bool(spec), "has_body": True, "compose": True,
     })
